@@ -12,3 +12,10 @@ def register_all(prop):
                "bytes to a live frps that also hosts a legitimate tunnel."),
          assumptions=["encoding/json of the Go standard library is the reference encoder for the generic tree",
                       "strings inside messages are valid UTF-8 (invalid UTF-8 is covered by C16)"])
+    prop("C12", qshards=8, tshards=16, qlimit=420, tlimit=3000,
+         rule=("histories: rapid draws 3..18 operations over 3 client slots and 4 proxy names (2 tcp with fixed ports, 1 stcp, 1 http): "
+               "fresh login, re-login with the slot's run id (single, or 2..3 at once), register, close (own or foreign name), disconnect, "
+               "user connection. A reference map name -> owning session is the oracle; every session's scripted backend tags its answers, "
+               "so who served a user connection is observed, not inferred. non-trivial = the history has a cross-session name collision or a "
+               "re-login while the old session still holds proxies; distinct = distinct (tcpMux, op sequence)."),
+         assumptions=["loopback transport; scripted client speaks the released protocol", "after a plain disconnect the harness waits until the server's session table no longer lists the run id (hook) before expecting the names to be free"])
